@@ -424,11 +424,25 @@ func build(bin, repo, work string, race, fuzz bool) string {
 		os.WriteFile(filepath.Join(work, "alt.sum"), sum, 0o644)
 		args = append(args, "-modfile", mf)
 	}
-	args = append(args, "./props")
-	cmd := exec.Command("go", args...)
-	cmd.Dir = harness
-	cmd.Env = goEnv()
-	out, err := cmd.CombinedOutput()
+	run := func(extra ...string) ([]byte, error) {
+		a := append(append([]string(nil), args...), extra...)
+		a = append(a, "./props")
+		cmd := exec.Command("go", a...)
+		cmd.Dir = harness
+		cmd.Env = goEnv()
+		return cmd.CombinedOutput()
+	}
+	out, err := run()
+	if err != nil && strings.Contains(string(out), "c20_weights_test.go") {
+		// the weight accessors (Value methods) of the tree under test have another shape than
+		// the harness binds: leave that file out, so that every check but C20 still runs
+		if out2, err2 := run("-tags", "noweights"); err2 == nil {
+			fmt.Fprintf(os.Stderr, "note: harness built without the weight accessors (they do not compile against this tree):\n%s\n", tail(string(out), 6))
+			return ""
+		} else {
+			out = append(out, out2...)
+		}
+	}
 	if err != nil {
 		return fmt.Sprintf("go %s: %v\n%s", strings.Join(args, " "), err, out)
 	}
